@@ -19,6 +19,7 @@ import (
 // world holds what one execution of a history shares: the once handles (identity matters) .
 type world struct {
 	handles map[int]*templ.OnceHandle
+	proto   *templ.OnceHandle // the handle the copied ones are copies of
 	depth   int
 }
 
@@ -32,7 +33,23 @@ func (w *world) handle(h int, fixed bool, body []Op) *templ.OnceHandle {
 	if fixed {
 		x = templ.NewOnceHandle(templ.WithComponent(w.tmpl(body, false, nil)))
 	} else {
-		x = templ.NewOnceHandle()
+		// A once handle IS its address (the registry is keyed by *OnceHandle): every way of making a distinct *OnceHandle gives a
+		// distinct handle, whatever its unexported fields hold.  The zero value is usable (`var h templ.OnceHandle`, a struct
+		// field of that type), and so is a copy of a handle.  By handle number, so that a history's replay makes the same ones.
+		switch h % 4 {
+		case 0:
+			x = templ.NewOnceHandle()
+		case 1:
+			x = &templ.OnceHandle{}
+		case 2:
+			x = new(templ.OnceHandle)
+		default:
+			if w.proto == nil {
+				w.proto = templ.NewOnceHandle()
+			}
+			cp := *w.proto
+			x = &cp
+		}
 	}
 	w.handles[h] = x
 	return x
